@@ -331,6 +331,12 @@ impl WorldB {
                 }
             }
         }
+        // ... but once a challenge went out for a token it is bound to that address: the same request from anywhere else
+        // addresses nothing (no reply, no change to any table)
+        if ptype == T_REQUEST && !bogus && rec_tid.and_then(|t| self.tokens[t].first_addr).map(|a| a != src).unwrap_or(false) {
+            handshake_ok = false;
+            obs.count("probe.request_with_token_bound_to_another_address");
+        }
         let expect_inert = !(authentic_first || handshake_ok);
         let snap_before = self.server_snap();
         let connected_addr = sess_id.is_some();
@@ -759,6 +765,24 @@ impl WorldB {
         let protected = matches!(ptype, T_KEEPALIVE | T_PAYLOAD | T_DISCONNECT);
         let in_window = !s.rx_seen.contains(&seq) && s.rx_highest.map(|h| seq.checked_add(256).map(|x| x > h).unwrap_or(true)).unwrap_or(true);
         let authentic_first = genuine_for_me && (!protected || in_window) && !earlier_session;
+        // C04: a genuine payload arriving for the first time is lost when another, different datagram of the same sender already
+        // used its sequence number in this session (the sender sealed two datagrams under one sequence)
+        if genuine_for_me && !earlier_session && ptype == T_PAYLOAD && self.ledger[ix].arrivals == 0 && s.rx_seen.contains(&seq) && !s.rx_taint {
+            let ep = s.epoch;
+            let clash = self.ledger.iter().enumerate().any(|(j, r)| {
+                j != ix
+                    && r.seq == seq
+                    && r.tid == rec_tid
+                    && r.producer == self.ledger[ix].producer
+                    && r.sv_attempt == self.ledger[ix].sv_attempt
+                    && r.accepted_in == Some(ep)
+                    && !r.certainly_bogus
+                    && r.bytes != self.ledger[ix].bytes
+            });
+            if clash {
+                obs.violate("C04", "genuine-payload-lost-to-sequence-clash", "client", format!("datagram {} seq {} slot {}: another datagram with this sequence was accepted before", ix, seq, slot));
+            }
+        }
         obs.count("op.deliver_to_client");
         obs.count("oracle.C07.returns");
         let surfaced: Option<Vec<u8>> = {
